@@ -15,6 +15,7 @@ import (
 	"fmt"
 	"math/big"
 	"net/http"
+	"net/url"
 	"regexp"
 	"strings"
 	"sync"
@@ -201,8 +202,39 @@ func runC19(c hx.Case) any {
 			}
 		}
 	}
+	// … and as a query parameter described by content (any schema, any JSON value), fail-first and multi-error
+	var e4, e5 error
+	if body, err := json.Marshal(v); err == nil {
+		for _, multi := range []bool{false, true} {
+			prm := &openapi3.Parameter{Name: "p", In: "query", Content: openapi3.NewContentWithJSONSchemaRef(&openapi3.SchemaRef{Value: s})}
+			op := &openapi3.Operation{Responses: openapi3.NewResponses(), Parameters: openapi3.Parameters{&openapi3.ParameterRef{Value: prm}}}
+			q := url.Values{"p": []string{string(body)}}
+			req, _ := http.NewRequest("GET", "http://example.com/x?"+q.Encode(), nil)
+			opts := &openapi3filter.Options{MultiError: multi}
+			opts.WithCustomSchemaErrorFunc(reasonOnly)
+			in := &openapi3filter.RequestValidationInput{Request: req, Options: opts,
+				Route: &routers.Route{Spec: &openapi3.T{}, Path: "/x", PathItem: &openapi3.PathItem{Get: op}, Method: "GET", Operation: op}}
+			if e := openapi3filter.ValidateRequest(context.Background(), in); e != nil {
+				var flat []error
+				flattenErrs(e, &flat)
+				for _, fe := range flat {
+					var re *openapi3filter.RequestError
+					if errors.As(fe, &re) && re.Err != nil {
+						if _, isParse := re.Err.(*openapi3filter.ParseError); isParse {
+							continue // a value that does not decode as the parameter is quoted by the parse error: not a schema error
+						}
+						if multi {
+							e5 = re.Err
+						} else {
+							e4 = re.Err
+						}
+					}
+				}
+			}
+		}
+	}
 	var reasons []string
-	for _, e := range []error{ed, em, e2, e3} {
+	for _, e := range []error{ed, em, e2, e3, e4, e5} {
 		allReasons(e, &reasons, 0)
 	}
 	leaks := []any{}
@@ -218,6 +250,12 @@ func runC19(c hx.Case) any {
 	}
 	if e3 != nil {
 		msgs = append(msgs, "request-validator: "+e3.Error())
+	}
+	if e4 != nil {
+		msgs = append(msgs, "request-validator/parameter: "+e4.Error())
+	}
+	if e5 != nil {
+		msgs = append(msgs, "request-validator/parameter/multi: "+e5.Error())
 	}
 	// details disabled, as a deployment sets it: before validating (wrapped validator errors are rendered eagerly)
 	openapi3.SchemaErrorDetailsDisabled = true
